@@ -8,7 +8,9 @@ import (
 var (
 	KeyAssetParams = []byte("AssetParams") // asset params key
 
-	DefaultPreviousBlockTime = time.Now()
+	// DefaultPreviousBlockTime must be a fixed instant: it ends up in the default
+	// and exported genesis, which have to be identical on every node
+	DefaultPreviousBlockTime = time.Unix(1, 0).UTC()
 )
 
 // ParamKeyTable returns the TypeTable for coinswap module
